@@ -1,5 +1,6 @@
 """C14 — Hooked timed waits honour the requested timeout (structural clauses)."""
 from rules.common import start
+from rules import wave3
 from rules import wave2
 from rules import timed
 
@@ -21,4 +22,7 @@ def run(tier):
     # clauses added for the wave-2 seeds (rules/wave2.py; DESIGN 12a)
     for _cfg, f in fx.items():
         wave2.wide_scale_rule(run, f, "C14-SCALE-WIDTH")
+    # clauses added for the wave-2 seeds (rules/wave2.py; DESIGN 12a)
+    for _cfg, f in fx.items():
+        wave3.now_is_realtime_rule(run, f, "C14-NOW-REALTIME")
     return run.finish()
